@@ -81,8 +81,11 @@ def userspace_guard(ctx):
                     for o in s["r"].get("ops", []):
                         if const_int(o) == end or o.get("uneval", "").endswith("USER_MEMORY_END"):
                             has_end = True
-        if has_end:
-            cands.append(f)
+        cands.append((has_end, f))
+    # the signature alone identifies the guard on this code base; the constant only disambiguates
+    if len(cands) > 1:
+        cands = [c for c in cands if c[0]]
+    cands = [c[1] for c in cands]
     ctx.need(len(cands) == 1, "exactly one user-space guard (Option<()> fn(&Debugger, u16) mentioning 0xFE00): %s"
              % [c.name for c in cands])
     ctx.analysed_fns.add(cands[0].name)
